@@ -7,6 +7,8 @@ import CSD.Lemmas.PFCMeta
 import CSD.Lemmas.RPDAC2
 import CSD.Lemmas.FM11
 import CSD.Lemmas.RPFC6
+import CSD.Lemmas.PFCIter
+import CSD.Lemmas.RPFC10
 
 namespace CSD.Props.C03
 open CSD CSD.PFC
@@ -180,5 +182,14 @@ theorem rpfc_models_match_source_text :
     Generated.body_RPFC_searchPrefix = SourceText.body_RPFC_searchPrefix ∧
     Generated.body_RPFC_searchDistinctPrefix = SourceText.body_RPFC_searchDistinctPrefix :=
   ⟨rfl, rfl, rfl, rfl, rfl, rfl, rfl, rfl, rfl, rfl⟩
+
+/-- **The table scans enumerate in lexicographic (unsigned byte) order**: PFC under any bucket size and RPFC over
+any storing grammar scan to one and the same strictly ascending list, whose `k`-th string is the member with ID `k`. -/
+theorem table_scans_ascending {S : List Str} (hv : validDict S = true) (b : Nat) {dR : RPFC.D} (hR : RPFC.Stores S dR) :
+    ∃ T, PFC.table (PFC.build b S) = some T ∧ RPFC.extractTable dR = some T ∧ SortedLt T ∧
+      ∀ k, 1 ≤ k → k ≤ S.length → PFC.extract (PFC.build b S) k = some T[k - 1]? ∧ RPFC.extract dR k = some T[k - 1]? := by
+  obtain ⟨hne, hn, hs, _⟩ := PFC.validDict_facts hv
+  exact ⟨S, PFC.table_build b S hne hn, RPFC.extractTable_stores hR hne, hs,
+    fun k h1 h2 => ⟨PFC.extract_build b S hn k h1 h2, RPFC.extract_stores hR k h1 h2⟩⟩
 
 end CSD.Props.C03
